@@ -2,27 +2,17 @@
 
 package webrtc
 
-import "time"
-
 // Helper definitions of internal/protocols/webrtc (from_stream.go) and the shapes their callers use:
 //
 //	multiplyAndDivide2
 //	  through timestampToDuration                                                                   ticks->ns
 //	  from_stream.go:371,505,557,654  (audioPTSDriftTolerance ns, format.ClockRate(), time.Second)   ns->ticks
 //	timestampToDuration(t, clockRate)  12 sites (clockRate = 90000 | 48000 | 8000 | format.ClockRate())  ticks->ns
+//
+// Each helper registers itself from its own file (c24_h_*_test.go), so that a tree in which a helper was
+// removed or renamed still lets the driver build the other helpers of the package (optional harness files).
+var c24Registry []c24Helper
+
 func c24Helpers() (string, []c24Helper) {
-	return "internal/protocols/webrtc", []c24Helper{
-		{
-			name: "webrtc.multiplyAndDivide2",
-			fn: func(v, m, d int64) int64 {
-				return int64(multiplyAndDivide2(time.Duration(v), time.Duration(m), time.Duration(d)))
-			},
-			shapes: []c24Shape{c24TicksToNs, c24NsToTicks},
-		},
-		{
-			name:   "webrtc.timestampToDuration",
-			fn:     func(v, _, d int64) int64 { return int64(timestampToDuration(v, int(d))) },
-			shapes: []c24Shape{c24TicksToNs},
-		},
-	}
+	return "internal/protocols/webrtc", c24Registry
 }
